@@ -2191,7 +2191,13 @@ func (h *fsmHandler) established(ctx context.Context) (bgp.FSMState, *fsmStateRe
 			} else if err != nil {
 				return bgp.BGP_FSM_IDLE, newfsmStateReason(fsmWriteFailed, nil, nil)
 			}
-			reasonCh <- *newfsmStateReason(fsmNotificationSent, m, nil)
+			select {
+			case reasonCh <- *newfsmStateReason(fsmNotificationSent, m, nil):
+			default:
+				// the recv goroutine (NOTIFICATION received, then read failed) and the
+				// send goroutine (write failed) have filled the channel already: the
+				// session ends for one of those reasons, do not block on our own
+			}
 		case <-holdtimerResetCh:
 			conf := fsm.pConf.ReadOnly()
 			if conf.Timers.State.NegotiatedHoldTime != 0 {
